@@ -26,6 +26,7 @@ Record lk_wf (l : lk_layout) (stream : list lk_page) : Prop := {
   lw_uts : uts_sane (fit 390 (ll_uts l)) = true;
   lw_nodup : NoDup (map lp_pfn stream);
   lw_addr : Forall (fun p => lp_pfn p * ll_page_size l < 2^64) stream;
+  lw_pfn32 : Forall (fun p => lp_pfn p < 2^32) stream;   (* what the reader's index can hold *)
   lw_size : len (encode_lkcd l stream) < 2^64;
   lw_memsize : ll_memsize l < 2^64
 }.
@@ -313,6 +314,14 @@ Section Roundtrip.
   Lemma off_pos n : 742 <= off n.
   Proof. pose proof dataoff_pos. unfold off. lia. Qed.
 
+  Lemma off_le n : off n + 16 <= len F.
+  Proof.
+    unfold off, F, encode_lkcd. fold be shift dataoff. rewrite !len_app, len_fit.
+    change (len (flat_map (enc_page be (N.log2 (ll_page_size l))) stream)) with (recs_len be shift stream).
+    rewrite <- (firstn_skipn n stream) at 2. rewrite recs_len_app.
+    unfold end_marker. rewrite len_enc_flds. cbn [flds_len fld_len map fold_right]. lia.
+  Qed.
+
   (** ** the scan *)
   Lemma skipn_cons i p : nth_error stream i = Some p -> skipn i stream = p :: skipn (S i) stream.
   Proof.
@@ -345,6 +354,10 @@ Section Roundtrip.
       assert (Hend : N.land (lp_flags p) DUMP_END =? 0 = true)
         by (destruct (rec_flags n p Hp) as [-> | ->]; reflexivity).
       rewrite Hend. cbn [negb].
+      assert (H32 : lp_pfn p < 2^32).
+      { pose proof (lw_pfn32 _ _ Hwf) as Hall. rewrite Forall_forall in Hall.
+        exact (Hall _ (nth_error_In _ _ Hp)). }
+      destruct (N.leb_spec (2^32) (lp_pfn p)) as [Hbad | _]; [lia |].
       (* not seen before *)
       rewrite (assoc_index n (lp_pfn p)) by lia.
       destruct (find_rec (firstn n stream) (lp_pfn p) 0) as [[j q] |] eqn:Hfj.
@@ -704,6 +717,14 @@ Section Roundtrip.
 
   Lemma inv_geometry st : inv st -> lk_be st = be /\ lk_page_size st = pgsz.
   Proof. intros [n [_ [-> | [_ ->]]]]; split; reflexivity. Qed.
+
+  Lemma inv_facts st : inv st ->
+    exists n, (n <= total)%nat /\ lk_index st = index n /\ lk_last st = off n /\
+              lk_end st <= lk_last st /\ lk_last st + 16 <= len F.
+  Proof.
+    intros [n [Hn Hc]]. exists n. pose proof (off_le n).
+    destruct Hc as [-> | [_ ->]]; cbn [state lk_index lk_last lk_end]; repeat split; auto; lia.
+  Qed.
 
   Lemma inv_open : inv (state 0 false).
   Proof. exists 0%nat. split; [lia |]. now left. Qed.
